@@ -173,7 +173,11 @@ pub async fn read_response_frame(
     // TODO: Guard from frames that are too large
     let length = buf.get_u32() as usize;
 
-    let mut raw_body = Vec::with_capacity(length).limit(length);
+    // The announced length is not trusted for preallocation: the buffer starts
+    // small and grows as the body bytes actually arrive (`limit` still makes
+    // sure that no more than `length` bytes are read).
+    const MAX_BODY_PREALLOCATION: usize = 64 * 1024;
+    let mut raw_body = Vec::with_capacity(length.min(MAX_BODY_PREALLOCATION)).limit(length);
     while raw_body.has_remaining_mut() {
         let n = reader.read_buf(&mut raw_body).await.map_err(|err| {
             FrameHeaderParseError::BodyChunkIoError(raw_body.remaining_mut(), err)
